@@ -1,6 +1,7 @@
 (* C18 — the query history file keeps the last N submitted queries in order.
    Statements only; proofs live in proofs/HistoryProofs.v. *)
-From Fzf Require Import Prelude HistorySpec HistoryModel HistoryProofs HistoryProcSpec HistoryProcModel HistoryProcProofs.
+From Fzf Require Import Prelude HistorySpec HistoryModel HistoryProofs HistoryProcSpec HistoryProcModel HistoryProcProofs
+  HistoryLoopSpec HistoryLoopModel HistoryLoopProofs.
 Open Scope Z_scope.
 
 (* After ANY sequence of well-formed sessions (each: load; any previous/next/edit steps; submit or not),
@@ -129,4 +130,62 @@ Proof.
   cbn zeta. split; [|split; [|vm_compute; reflexivity]].
   - repeat constructor; unfold NL; discriminate.
   - repeat constructor.
+Qed.
+
+(* ===== the action loop of one run (terminal.go, Loop): actions that end the session only when there is an
+   item to act on - become(... {} ...), accept-non-empty - and are ignored otherwise ===== *)
+
+(* The loop of the program, action by action (the history is appended to only in the branch of actBecome that
+   hands over, and in exit()), is the plain session that its steps AMOUNT TO (HistoryLoopSpec.amounts_to: the
+   steps before the first attempt that finds an item, ended by that attempt; else the ending given). *)
+Theorem loop_session_amounts_to : forall F s,
+  run_lsession F s =
+  match run_psession F (as_psession s) with
+  | Ok (F', c, seen, inp) => Ok (F', c, seen, inp, snd (amounts_to (l_steps s) (l_end s)))
+  | Err er => Err er
+  end.
+Proof. exact loop_refines_proof. Qed.
+Print Assumptions loop_session_amounts_to.
+
+(* An attempt that is ignored leaves NO trace: files, shown strings, query and ending are those of the run
+   without it - wherever it stands, however often it is repeated (apply the theorem repeatedly). *)
+Theorem ignored_attempts_leave_no_trace : forall F layers ps1 ps2 e e0,
+  run_lsession F (mkL layers (ps1 ++ PTry e false :: ps2) e0) = run_lsession F (mkL layers (ps1 ++ ps2) e0).
+Proof. exact ignored_no_trace_proof. Qed.
+Print Assumptions ignored_attempts_leave_no_trace.
+
+(* One run with any steps, over any file system: it does not fail, runs under the configuration its options
+   ask for, ends by the ending its steps amount to, and every file stores what the spec says for that ending
+   and the query at that moment. *)
+Theorem loop_session_keep_last_n : forall F s, lsession_wf s ->
+  let cfg := eff_config (concat (l_layers s)) in
+  let e := snd (amounts_to (l_steps s) (l_end s)) in
+  exists F' seen inp, run_lsession F s = Ok (F', cfg, seen, inp, e) /\
+    forall q, fs_entries (F' q) = proc_step cfg e inp q (fs_entries (F q)).
+Proof. exact loop_session_proof. Qed.
+Print Assumptions loop_session_keep_last_n.
+
+(* While a session is open (no attempt has fired; observed by giving it up at that point) no file has changed
+   its entries, whatever was edited, navigated or attempted. *)
+Theorem open_session_unchanged : forall F layers ps, lsession_wf (mkL layers ps EndAbort) ->
+  Forall (fun p => match p with PTry _ true => False | _ => True end) ps ->
+  exists F' c seen inp, run_lsession F (mkL layers ps EndAbort) = Ok (F', c, seen, inp, EndAbort) /\
+    forall q, fs_entries (F' q) = fs_entries (F q).
+Proof. exact open_session_unchanged_proof. Qed.
+Print Assumptions open_session_unchanged.
+
+(* non-vacuity: limit 3, file "an ch"; query zzz, an ignored become, previous (shows ch), query a, a become
+   that fires: stored an ch a; the steps after it are never carried out *)
+Example c18_loop_nonvacuous :
+  let h := [104] in
+  let s := mkL [[HFile h; HSize 3]] [PDo (Edit [122;122;122]); PTry EndBecome false; PDo Prev; PDo (Edit [97]);
+                                     PTry EndBecome true; PDo (Edit [98])] EndAbort in
+  lsession_wf s /\
+  match run_lsession (fun q => if str_eqb q h then Some [97;110;10;99;104;10] else None) s with
+  | Ok (F', _, seen, inp, e) => F' h = Some [97;110;10;99;104;10;97;10] /\ seen = [[99;104]] /\ inp = [97] /\ e = EndBecome
+  | Err _ => False
+  end.
+Proof.
+  cbn zeta. split; [|vm_compute; repeat split; reflexivity].
+  split; [|split]; [repeat constructor; unfold NL; discriminate|repeat constructor|reflexivity].
 Qed.
